@@ -198,7 +198,8 @@ fn parse_list(tokens: TokenStream) -> Result<Value, ParseError> {
     let mut parser = Parser::new(tokens.into_iter().collect());
     while let Some(token) = parser.peek() {
         if let TokenTree::Punct(punct) = token {
-            if punct.as_char() == '.' {
+            // A dot that is glued to more punctuation starts a symbol such as `...`.
+            if punct.as_char() == '.' && punct.spacing() == Spacing::Alone {
                 if tail.is_some() {
                     return Err(ParseError::UnexpectedChar('.'));
                 }
